@@ -208,12 +208,16 @@ def run_meta(c, tier):
         rng = c.rng.__class__(c.seed * 3331 + ci)
         nw = rng.choice([2, 3])
         freq = rng.choice([2, 4])
+        # state files every 6 update periods, or (half of the cases) never during the run: then peers' hills can only
+        # arrive through the incrementally read hills files, and a read position lost to a partial record never heals
+        rfreq = 6 * freq if ci % 2 == 0 else 100000
+        fault_frac = 0.6 if ci % 4 < 2 else 0.3
         wd = os.path.join(c.work, "meta%d" % ci)
         shutil.rmtree(wd, ignore_errors=True)
         os.makedirs(wd)
         registry = os.path.join(wd, "registry.txt")
         walkers = []
-        key = "meta:nw%d:freq%d" % (nw, freq)
+        key = "meta:nw%d:freq%d:%s" % (nw, freq, "states" if rfreq < 100000 else "nostates")
         files = []
         try:
             for w in range(nw):
@@ -223,7 +227,7 @@ def run_meta(c, tier):
                 # the output prefix must be relative: replica file names are built as <cwd>/<prefix>...
                 # state files every 6 update periods: in between, peers' hills arrive through the hills files
                 ev = wk.send(hdr + "emit atoms off\nmodule\nprefix out\nrfreq %d\nconfig <<EOC\n%sEOC\ninit\n" % (
-                    6 * freq, meta_config("r%d" % w, registry, freq)))
+                    rfreq, meta_config("r%d" % w, registry, freq)))
                 cfg = [e for e in ev if e["ev"] == "config"]
                 if cfg and cfg[0]["rc"] != 0:
                     raise RuntimeError("config rejected: %s" % cfg[0]["errs"])
@@ -242,7 +246,7 @@ def run_meta(c, tier):
                 ws = list(range(nw))
                 rng.shuffle(ws)
                 order += ws
-            faults_until = int(len(order) * 0.6)
+            faults_until = int(len(order) * fault_frac)
             for n_, w in enumerate(order):
                 t = tstep[w]
                 x = ctl.dy(rng, LO + 0.5, HI - 0.5, 4)
